@@ -4227,6 +4227,10 @@ void SoPlexBase<R>::_transformUnbounded()
       }
       else if(_realLP->rhs(r) < realParam(SoPlexBase<R>::INFTY))
          _realLP->changeRhs(r, realParam(SoPlexBase<R>::INFTY));
+
+      // a ranged row has become the equation ... = 0; _untransformUnbounded() re-derives the type from the restored sides
+      if(_rowTypes[r] == RANGETYPE_BOXED)
+         _rowTypes[r] = RANGETYPE_FIXED;
    }
 
    // transform objective function to constraint and add auxiliary variable
@@ -4274,6 +4278,10 @@ void SoPlexBase<R>::_transformUnbounded()
       }
       else if(_realLP->upper(c) < realParam(SoPlexBase<R>::INFTY))
          _realLP->changeUpper(c, realParam(SoPlexBase<R>::INFTY));
+
+      // a boxed variable has become fixed at 0; _untransformUnbounded() re-derives the type from the restored bounds
+      if(_colTypes[c] == RANGETYPE_BOXED)
+         _colTypes[c] = RANGETYPE_FIXED;
    }
 
    // adjust basis
@@ -4389,6 +4397,10 @@ void SoPlexBase<R>::_untransformUnbounded(SolRational& sol, bool unbounded)
          _realLP->changeRhs(r, R(_unboundedRhs[r]));
       }
 
+      // _transformUnbounded() turned ranged rows into equations
+      if(_rowTypes[r] == RANGETYPE_FIXED)
+         _rowTypes[r] = _rangeTypeRational(lhsRational(r), rhsRational(r));
+
       assert((lhsRational(r) > _rationalNegInfty) == _lowerFinite(_rowTypes[r]));
       assert((rhsRational(r) < _rationalPosInfty) == _upperFinite(_rowTypes[r]));
       assert((lhsReal(r) > -realParam(SoPlexBase<R>::INFTY)) == _lowerFinite(_rowTypes[r]));
@@ -4408,6 +4420,10 @@ void SoPlexBase<R>::_untransformUnbounded(SolRational& sol, bool unbounded)
          _rationalLP->changeUpper(c, _unboundedUpper[c]);
          _realLP->changeUpper(c, R(_unboundedUpper[c]));
       }
+
+      // _transformUnbounded() turned boxed variables into fixed ones
+      if(_colTypes[c] == RANGETYPE_FIXED)
+         _colTypes[c] = _rangeTypeRational(lowerRational(c), upperRational(c));
 
       assert((lowerRational(c) > _rationalNegInfty) == _lowerFinite(_colTypes[c]));
       assert((upperRational(c) < _rationalPosInfty) == _upperFinite(_colTypes[c]));
